@@ -470,7 +470,7 @@ const (
 	hour = int64(time.Hour)
 )
 
-// witnesses are always generated: the open finding F9a, the repaired ones (they must pass the oracle now)
+// witnesses are always generated: all repaired findings (they must pass the oracle now)
 // and the boundary cases the property text names.
 func witnesses() []scenario {
 	big := 10000 * hour
@@ -496,7 +496,7 @@ func witnesses() []scenario {
 			Next: fixedSteps(step{P: wp(100*ns, 10*ns)})},
 		{Name: "w-fast-blocks-estimate-above-store-head", Witness: "fixed:F9c", Gaps0: rep(5*ns, 60), Adv0: ns, Batch: 1, PreTail: 1, PreHead: 50,
 			Next: fixedSteps(step{P: wp(100*ns, 10*ns)})},
-		{Name: "w-lagging-store-fast-blocks", Witness: "fixed:F9a", Gaps0: []int64{2, 3, 2, 3, 2, 3, 2, 3, 2, 3, 2, 3, 2, 3, 2, 3, 2, 3, 2, 3, 2, 3, 2, 3, 2, 3, 2, 3}, Adv0: ns, Batch: 1, PreTail: 15, PreHead: 23,
+		{Name: "w-lagging-store-fast-blocks", Witness: "fixed:F9a", Gaps0: []int64{2, 3, 2, 3, 2, 3, 3, 2, 2, 3, 2, 3, 2, 3, 2, 3, 2, 2, 2, 5, 2, 5, 2, 2, 5, 2, 3, 2}, Adv0: ns, Batch: 1, PreTail: 15, PreHead: 23,
 			Next: fixedSteps(step{P: wp(19*ns, 10*ns)}, step{Grow: []int64{2}, P: wp(19*ns, 10*ns)})},
 		{Name: "w-exact-blocks-far", Gaps0: rep(10*ns, 60), Adv0: ns, Batch: 1, PreTail: 1, PreHead: 60,
 			Next: fixedSteps(step{P: wp(100*ns, 10*ns)})},
@@ -760,7 +760,7 @@ func TestC16(t *testing.T) {
 	w.Rule = "one case = one recomputation of the tail through the public API: Start() of a freshly configured Syncer (restart / reconfiguration), or " +
 		"Head() of the Syncer left running by the previous step where that cannot race with the sync loop (new head adjacent to the store head, or local head expired); " +
 		"real sync.Syncer over the real store.Store (in-memory datastore, Append made synchronous) and a scripted getter serving a generated chain, in synctest virtual time; " +
-		"scenarios chain 1-4 such steps on one store while the network chain grows and the clock advances; generators: 17 witness scenarios (always: open finding F9a, repaired findings F8/F9b/F9c/F9d/F9e/F9f, boundary cases), random scenarios over " +
+		"scenarios chain 1-4 such steps on one store while the network chain grows and the clock advances; generators: 18 witness scenarios (always: repaired findings F8/F9a/F9b/F9c/F9d/F9e/F9f, boundary cases), random scenarios over " +
 		"{exact, fast, slow, halted, jitter, irregular, same-time, unordered} chains x units 1ns..1h x blockTime {unset, 0, unit, 2*unit, unit/2, negative} x window multiples and " +
 		"boundary-aimed windows (tailTimeDiff in {-1,0,1}, {window-1,window,window+1}, expected tail time at a stored header's time +-1) x trusting period (large / small: expiry) x " +
 		"SyncFromHeight / SyncFromHash at positions around tail, head, head+1, network head and beyond x invalid parameter sets; the young-chain boundary of estimateTailHeight; " +
